@@ -220,7 +220,7 @@ func runOutboxStress(c *Case) {
 	n := 2 + r.Intn(5)
 	var cls []*stressClient
 	for i := 0; i < n; i++ {
-		wc, err := ts.LoginOK(fmt.Sprintf("10.5.0.%d:4000", i+1), "guest", "", nil, fld(hotline.FieldUserName, []byte(fmt.Sprintf("user%d", i))), fld(hotline.FieldUserIconID, be16(i)))
+		wc, err := loginWire(ts, fmt.Sprintf("10.5.0.%d:4000", i+1), "guest", "", fld(hotline.FieldUserName, []byte(fmt.Sprintf("user%d", i))), fld(hotline.FieldUserIconID, be16(i)))
 		if err != nil {
 			c.Note("login_error", err.Error())
 			c.Disagree("stress-login", "a guest login over an in-memory connection did not succeed")
@@ -239,7 +239,7 @@ func runOutboxStress(c *Case) {
 	probe := func(ty int, t hotline.Transaction) {
 		cls[0].sent[tranID(&t)] = ty
 		cls[0].wc.Conn.Feed(encTran(t))
-		_, ok := cls[0].wc.ReplyTo(tranID(&t), 10*time.Second)
+		_, ok := cls[0].wc.ReplyTo(tranID(&t), longWait)
 		alone[ty] = ok
 	}
 	probe(500, mkTran(hotline.TranKeepAlive, 11))
@@ -250,7 +250,7 @@ func runOutboxStress(c *Case) {
 	for ty, ok := range alone {
 		if !ok {
 			c.Note("type", ty)
-			c.Disagree("stress-probe", "a probe request issued alone got no reply within 10 s")
+			c.Disagree("stress-probe", "a probe request issued alone got no reply in time")
 			return
 		}
 	}
@@ -344,7 +344,7 @@ func runOutboxStress(c *Case) {
 		}
 		return true
 	}
-	waitFor(30*time.Second, complete)
+	waitFor(longWait, complete)
 	for _, sc := range cls {
 		sc.wc.Quiesce(20*time.Millisecond, 2*time.Second)
 	}
@@ -434,7 +434,7 @@ func runOutboxStress(c *Case) {
 		sc.wc.Conn.EOF()
 	}
 	for _, sc := range cls {
-		sc.wc.WaitDone(5 * time.Second)
+		sc.wc.WaitDone(longWait)
 	}
 	c.Nontrivial(fmt.Sprintf("stress n=%d k=%d board=%d files=%d lines=%d %x", n, k, len(board), nfiles, len(chatLines), c.Seed))
 	c.Dist(fmt.Sprintf("stress/clients=%d", n))
@@ -450,8 +450,8 @@ func init() {
 			"goroutine schedules are sampled (stress) or forced at the one point that matters (between two Write calls of one transaction); fairness of the Go scheduler, memory pressure and kernel-level partial writes are outside the model",
 			"transactions fit the protocol: every field at most 65 535 bytes",
 		}
-		x.Add(&Family{Name: "forced-merge", Quick: 500, Thor: 24000, Run: runForcedMerge})
-		x.Add(&Family{Name: "reply-ctors", Quick: 3000, Thor: 300000, Run: runReplyCtors})
-		x.Add(&Family{Name: "outbox-stress", Quick: 120, Thor: 7500, Run: runOutboxStress})
+		x.Add(&Family{Name: "forced-merge", Quick: 500, Thor: 15000, Run: runForcedMerge})
+		x.Add(&Family{Name: "reply-ctors", Quick: 3000, Thor: 200000, Run: runReplyCtors})
+		x.Add(&Family{Name: "outbox-stress", Quick: 80, Thor: 3000, Run: runOutboxStress})
 	}
 }
